@@ -60,6 +60,11 @@ def judge(ctx, binary, cases):
     jl, where = [], []
     verdicts = [None] * len(cases)
     for n, (c, line, io) in enumerate(zip(cases, lines, impl)):
+        if io == "throw:eigendecomposition_error" and c["solver"] == "rand" and sp.rows_identical(c["rows"]):
+            # zero covariance + Randomized solver: the documented eigendecomposition_error
+            # (behaviour pinned by the repository's own test Interface::EigenDecompositionFailMDS)
+            verdicts[n] = {"impl": io, "model": "", "bad": [], "soft": [], "skip": "documented-error:zero-matrix"}
+            continue
         if not io.startswith("ok "):
             verdicts[n] = {"impl": io, "model": "", "bad": [("impl", io.split("@")[0])], "soft": []}
             continue
@@ -170,7 +175,8 @@ def account(ctx, c, v):
         for part in v["cmp"].split(","):
             k, n = part.split(":")
             ctx.stat("comparisons:" + k, int(n))
-    ctx.stat("verdict:ok" if v["sig"] is None else "verdict:oracle-false" if v["bad"] else "verdict:disagree-below-property")
+    ctx.stat("verdict:" + v["skip"] if v.get("skip") else "verdict:ok" if v["sig"] is None
+             else "verdict:oracle-false" if v["bad"] else "verdict:disagree-below-property")
     if v["sig"] is None and len(ctx.cov["samples"]) < 5 and c["N"] <= 5 and c["D"] <= 3:
         ctx.sample({"case": line_key, "impl": v["impl"][:300], "model": v["model"]})
 
